@@ -515,12 +515,15 @@ def env_of(ctx) -> dict:
 # the oracle: Conforms, in the property's own words, on the live result (declared descriptor driven)
 # ------------------------------------------------------------------------------------------------
 
+_CUR_CTX = [None]
+
+
 class Viol(Exception):
     def __init__(self, kind, node, got, extra=None, val=None):
         self.info = {"kind": kind, "node": node, "got": got, "extra": extra}
         if val is not None:
             try:
-                j = c12.enc(val, None)
+                j = enc(val, _CUR_CTX[0]) if _CUR_CTX[0] is not None else c12.enc(val, None)
                 if len(json.dumps(j)) < 400:
                     self.info["val"] = j
             except Exception:
@@ -813,6 +816,7 @@ def impl(case):
         ctx = Ctx(case)
     except Exception as e:
         return {"decl": f"{type(e).__name__}: {e}"[:200]}
+    _CUR_CTX[0] = ctx
     try:
         try:
             thunk, handle, options = build_call(case, ctx, False)
